@@ -267,7 +267,7 @@ struct EnvEngine : Engine {
 		} else {
 			/* unspecified fields are determined by --base alone */
 			std::string base = r.chance(1, 2) ? rdate(r) : rdt(r);
-			unsigned b = (unsigned)r.below(5);
+			unsigned b = (unsigned)r.below(6);
 			int m = (int)r.range(1, 12), d = (int)r.range(1, 28);
 			char v[32];
 			switch (b) {
@@ -286,10 +286,22 @@ struct EnvEngine : Engine {
 			case 3:
 				a = {"dconv", "--base", base, "--zone", zs[r.below(6)], "-f", "%T%Z", rtime(r)};
 				break;
-			default:
+			case 4:
 				snprintf(v, sizeof(v), "%02d", d);
 				a = {"dadd", "--base", base, "-i", "%d", "-f", "%F", v, "+1mo"};
 				break;
+			default: {
+				/* the expression and the lines both leave the year to the base */
+				snprintf(v, sizeof(v), "<%s %02d", english().amo[m - 1].c_str(), d);
+				a = {"dgrep", "--base", base, "-i", "%b %d", v};
+				p.has_input = true;
+				for (int i = 0; i < 4; i++) {
+					char l[48];
+					snprintf(l, sizeof(l), "%s %02d\n", english().amo[r.below(12)].c_str(), (int)r.range(1, 28));
+					p.input += l;
+				}
+				break;
+			}
 			}
 			p.par["with_base"] = "1";
 		}
@@ -366,14 +378,31 @@ struct EnvEngine : Engine {
 		(void)cfg;
 		Plan p;
 		unsigned k = (unsigned)r.below(100);
-		if (k < 62) {
+		if (k < 60) {
 			p.par["kind"] = "config";
 			gen_invocation(r, p);
 			int nenv = (int)r.range(3, 5);
 			p.par["nenv"] = std::to_string(nenv);
 			for (int i = 0; i < nenv; i++)
 				put_env(p, "e" + std::to_string(i) + "_", gen_env(r, i < 3 ? i + 1 : 4));
-		} else if (k < 82) {
+		} else if (k < 70) {
+			/* ---- each locale option affects its own direction only ---- */
+			p.par["kind"] = "direction";
+			const auto &L = locales();
+			static const char *tools[] = {"dconv", "dadd", "dround"};
+			p.par["tool"] = tools[r.below(3)];
+			p.par["L"] = L.empty() ? "de_DE" : L[r.below(L.size())].name;
+			p.par["side"] = r.chance(1, 2) ? "locale" : "from_locale";
+			p.par["mode"] = std::to_string(r.below(3));	/* 0 args, 1 stdin lines, 2 sed mode */
+			p.par["fmt"] = std::to_string(r.below(4));
+			size_t n = (size_t)r.range(1, 4);
+			for (size_t i = 0; i < n; i++) {
+				Op o;
+				o.kind = "v";
+				o.a = {r.range(1990, 2030), r.range(1, 12), r.range(1, 28)};
+				p.ops.push_back(o);
+			}
+		} else if (k < 86) {
 			/* ---- locale setter op sequence ---- */
 			p.par["kind"] = "setters";
 			const auto &L = locales();
@@ -949,6 +978,103 @@ struct EnvEngine : Engine {
 		return v;
 	}
 
+	/* --locale L must not change how input is read; --from-locale L must not change how output is printed */
+	Verdict judge_direction(const Plan &p, Stats &st, bool collect)
+	{
+		Verdict v;
+		std::string tool = p.par.count("tool") ? p.par.at("tool") : "dconv";
+		std::string L = p.par.count("L") ? p.par.at("L") : "de_DE";
+		bool loc_side = !p.par.count("side") || p.par.at("side") == "locale";
+		int mode = (int)p.ipar("mode", 0), f = (int)p.ipar("fmt", 0);
+		static const char *namefmt[] = {"%b %d %Y", "%d %B %Y", "%a %b %d %Y", "%A, %d %b %Y"};
+		const Loc en = english();
+		std::vector<std::string> vals;
+		for (auto &o : p.ops) {
+			if (o.kind != "v")
+				continue;
+			int y = (int)o.arg(0), m = (int)o.arg(1), d = (int)o.arg(2);
+			unsigned wd = model::weekday(model::days_from_civil(y, (unsigned)m, (unsigned)d));
+			char b[128];
+			if (!loc_side) {
+				vals.push_back(fmt_date(y, m, d));
+				continue;
+			}
+			switch (f) {
+			case 0:
+				snprintf(b, sizeof(b), "%s %02d %04d", en.amo[m - 1].c_str(), d, y);
+				break;
+			case 1:
+				snprintf(b, sizeof(b), "%02d %s %04d", d, en.lmo[m - 1].c_str(), y);
+				break;
+			case 2:
+				snprintf(b, sizeof(b), "%s %s %02d %04d", en.awd[wd].c_str(), en.amo[m - 1].c_str(), d, y);
+				break;
+			default:
+				snprintf(b, sizeof(b), "%s, %02d %s %04d", en.lwd[wd].c_str(), d, en.amo[m - 1].c_str(), y);
+				break;
+			}
+			vals.push_back(b);
+		}
+		if (vals.empty())
+			return v;
+		auto mk = [&](bool with_opt) {
+			Plan q;
+			q.engine = p.engine;
+			q.variant = p.variant;
+			q.argv = {tool};
+			if (with_opt) {
+				q.argv.push_back(loc_side ? "--locale" : "--from-locale");
+				q.argv.push_back(L);
+			}
+			if (mode == 2)
+				q.argv.push_back("-S");
+			if (loc_side)
+				q.argv.insert(q.argv.end(), {"-i", namefmt[f], "-f", "%F"});
+			else
+				q.argv.insert(q.argv.end(), {"-f", namefmt[f]});
+			if (mode == 0 && tool != "dconv") {
+				q.argv.push_back(vals[0]);
+				q.argv.push_back("+0d");
+			} else if (mode == 0) {
+				for (auto &x : vals)
+					q.argv.push_back(x);
+			} else {
+				if (tool != "dconv")
+					q.argv.push_back("+0d");
+				q.has_input = true;
+				for (auto &x : vals)
+					q.input += (mode == 2 ? "log: " + x + " end\n" : x + "\n");
+			}
+			return q;
+		};
+		EnvSpec e = baseline_env();
+		RunResult with = run_under(mk(true), e, st, true), without = run_under(mk(false), e, st, true);
+		if (collect) {
+			st.distinct_plans.insert(p.hash());
+			st.distinct_nontrivial.insert(p.hash());
+			st.signatures.insert(hash_str(hash_str(51, tool + (loc_side ? "L" : "F")), std::to_string(mode) + std::to_string(f)));
+			st.named[loc_side ? "direction_locale_vs_parsing" : "direction_from_locale_vs_printing"]++;
+			if (st.samples.size() < 7)
+				st.samples.push_back(argv_str(mk(true).argv) + (mode ? " <<< " + cquote(mk(true).input, 60) : ""));
+		}
+		for (const RunResult *r : {&with, &without})
+			if (r->crashed()) {
+				v.ok = false;
+				v.cls = r->hang ? "env/hang" : "env/memory";
+				v.predicate = "direction";
+				v.detail = argv_str(mk(r == &with).argv) + ": " + r->status_str() + " " + asan_summary(r->err);
+				return v;
+			}
+		if (with.out != without.out || with.exit_code != without.exit_code) {
+			v.ok = false;
+			v.cls = "env/locale-direction";
+			v.predicate = std::string("direction ") + (loc_side ? "locale_affects_parsing" : "from_locale_affects_printing") + " tool_" + tool + (mode == 0 ? " args" : mode == 1 ? " stdin" : " sed");
+			v.detail = argv_str(mk(true).argv) + (mode ? " <<< " + cquote(mk(true).input, 60) : "") + " prints " + cquote(with.out, 60) + " (exit " + std::to_string(with.exit_code) +
+				   "), without the option " + cquote(without.out, 60) + " (exit " + std::to_string(without.exit_code) + ")";
+		}
+		return v;
+	}
+
 	Verdict judge(const Plan &p, Stats &st, bool collect) override
 	{
 		std::string kind = p.par.count("kind") ? p.par.at("kind") : "config";
@@ -956,6 +1082,8 @@ struct EnvEngine : Engine {
 			return judge_setters(p, st, collect);
 		if (kind == "pair")
 			return judge_pair(p, st, collect);
+		if (kind == "direction")
+			return judge_direction(p, st, collect);
 		return judge_config(p, st, collect, kind == "control");
 	}
 
